@@ -128,10 +128,14 @@ impl HeapObject {
     pub fn from(parent: Pointer, fields: IndexMap<String, Pointer>, methods: IndexMap<String, ProgramObject>) -> Self {
         HeapObject::Object(ObjectInstance { parent, fields, methods })
     }
+    #[allow(dead_code)]
     pub fn evaluate_as_string(&self, heap: &Heap) -> Result<String> {
+        self.evaluate_as_string_within(heap, &mut Vec::new())
+    }
+    fn evaluate_as_string_within(&self, heap: &Heap, path: &mut Vec<HeapIndex>) -> Result<String> {
         match self {
-            HeapObject::Array(array) => array.evaluate_as_string(heap),
-            HeapObject::Object(object) => object.evaluate_as_string(heap),
+            HeapObject::Array(array) => array.evaluate_as_string_within(heap, path),
+            HeapObject::Object(object) => object.evaluate_as_string_within(heap, path),
         }
     }
     pub fn size(&self) -> usize {
@@ -199,9 +203,13 @@ impl ArrayInstance {
         self.0[index] = value_pointer;
         Ok(&self.0[index])
     }
+    #[allow(dead_code)]
     pub fn evaluate_as_string(&self, heap: &Heap) -> Result<String> {
+        self.evaluate_as_string_within(heap, &mut Vec::new())
+    }
+    fn evaluate_as_string_within(&self, heap: &Heap, path: &mut Vec<HeapIndex>) -> Result<String> {
         let elements = self.0.iter()
-            .map(|element| element.evaluate_as_string(heap))
+            .map(|element| element.evaluate_as_string_within(heap, path))
             .collect::<Result<Vec<String>>>()?;
         Ok(format!("[{}]", elements.join(", ")))
     }
@@ -246,10 +254,14 @@ impl ObjectInstance {
         self.fields.insert(name.to_owned(), pointer)
             .with_context(|| format!("There is no field named `{}` in object `{}`", name, self))
     }
+    #[allow(dead_code)]
     pub fn evaluate_as_string(&self, heap: &Heap) -> Result<String> {
+        self.evaluate_as_string_within(heap, &mut Vec::new())
+    }
+    fn evaluate_as_string_within(&self, heap: &Heap, path: &mut Vec<HeapIndex>) -> Result<String> {
         let parent = match self.parent {
             Pointer::Null => None,
-            parent => Some(parent.evaluate_as_string(heap)?),
+            parent => Some(parent.evaluate_as_string_within(heap, path)?),
         };
 
         // Sort fields in lexographical order
@@ -258,7 +270,7 @@ impl ObjectInstance {
 
         let fields = sorted_fields.into_iter()
             .map(|(name, value)| {
-                value.evaluate_as_string(heap).map(|value| format!("{}={}", name, value))
+                value.evaluate_as_string_within(heap, path).map(|value| format!("{}={}", name, value))
             })
             .collect::<Result<Vec<String>>>()?;
 
@@ -441,11 +453,24 @@ impl Pointer {
     }
 
     pub fn evaluate_as_string(&self, heap: &Heap) -> Result<String> { // TODO trait candidate
+        self.evaluate_as_string_within(heap, &mut Vec::new())
+    }
+
+    // `path` holds the heap objects whose rendering is in progress: meeting one of them again
+    // means the value contains itself and has no finite rendering.
+    fn evaluate_as_string_within(&self, heap: &Heap, path: &mut Vec<HeapIndex>) -> Result<String> {
         match self {
             Pointer::Null => Ok("null".to_owned()),
             Pointer::Integer(i) => Ok(i.to_string()),
             Pointer::Boolean(b) => Ok(b.to_string()),
-            Pointer::Reference(index) => heap.dereference(index)?.evaluate_as_string(heap),
+            Pointer::Reference(index) => {
+                bail_if!(path.contains(index),
+                         "Cannot print a value that contains itself (heap object {})", index);
+                path.push(*index);
+                let result = heap.dereference(index)?.evaluate_as_string_within(heap, path);
+                path.pop();
+                result
+            }
         }
     }
 }
